@@ -1530,3 +1530,11 @@ package runtime
 //@   prop C10
 //@   effectsonly
 //@   effects repanic-clean
+
+// C09 (one thread at a time): the goroutine of a new coroutine first waits to be
+// handed control (getResumeValues); whatever the coroutine costs is charged by
+// the creating thread before the goroutine exists.
+//@ func (*Thread).Start$1
+//@   prop C09
+//@   effectsonly
+//@   effects first-call getResumeValues
